@@ -37,6 +37,7 @@ type Stats struct {
 	PanicChecks  int
 	AssertChecks int
 	CacheHits    int
+	Canon        int
 }
 
 type Finding struct {
@@ -62,6 +63,7 @@ type Options struct {
 	Trace         bool
 	ValidateModels int
 	NoSlice       bool
+	MergeDebug    bool
 }
 
 // Engine: one per harness run.
@@ -93,6 +95,7 @@ type Engine struct {
 	initNext  ObjID
 	extra     map[string]interface{}
 	varCache  map[*Term][]uint32
+	viewCopies map[ObjID]bool
 	funIDs    map[string]uint32
 }
 
@@ -133,6 +136,7 @@ func NewEngine(prog *ssa.Program, opt Options, harness string) *Engine {
 		repoPrefix: "github.com/uhppoted/uhppote-core",
 		extra:     map[string]interface{}{},
 		varCache:  map[*Term][]uint32{},
+		viewCopies: map[ObjID]bool{},
 		funIDs:    map[string]uint32{},
 	}
 	e.sol.Harness = harness
